@@ -1,22 +1,23 @@
 #!/usr/bin/env python3
 """Mutant / refactor harness for C05 (scratch only; not part of the check, never touches /repo).
 
-Setup (what the builder did):
-  export GOFLAGS=-mod=mod GOPROXY=off GOSUMDB=off GOTOOLCHAIN=local; unset GOWORK
-  git -C /repo worktree add --detach /tmp/wt_c05
-  (cd /tmp/wt_c05 && git apply /verif/checker/props/c05/fix_reader.patch /verif/checker/props/c05/fix_writer.patch)
+Setup (round 2: /repo HEAD already contains both fixes and is the silent baseline):
+  export GOFLAGS=-mod=mod GOPROXY=off GOSUMDB=off GOTOOLCHAIN=local GOCACHE=/tmp/gocache_c05; unset GOWORK
+  git -C /repo worktree add --detach /tmp/wt_c05 HEAD
   mkdir -p /tmp/verif_c05/base && cp /tmp/wt_c05/formats/obj/{reader,writer}.go /tmp/verif_c05/base/
   (cd /verif/checker && go build -o /tmp/dev_c05 ./cmd/dev_c05)
-  python3 validate_c05.py refactors mutants        # or single ids: M01 W03 R04 X02 ...
-Baseline = tree with both proposed fixes (silent). Each trial: apply edit, compile, run the
-unedited formats/obj + formats/txt tests, run the check with -no-controls, restore.
-Afterwards: git -C /repo worktree remove --force /tmp/wt_c05; rm -rf /tmp/verif_c05 /tmp/dev_c05
+  cp validate_c05.py /tmp/verif_c05/harness.py && cd /tmp/verif_c05
+  python3 harness.py refactors mutants        # or single ids: S1 K03 M01 W03 R04 X02 ...
+  python3 gen_catalogue_c05.py OUT.json       # regenerates checker/mutants/c05.json (imports harness.py from /tmp/verif_c05)
+Each trial: apply edit, compile, run the unedited formats/obj + formats/txt tests, run the check
+with -no-controls, restore.
+Afterwards: git -C /repo worktree remove --force /tmp/wt_c05; rm -rf /tmp/verif_c05 /tmp/dev_c05 /tmp/gocache_c05
 """
 import os, re, subprocess, sys, shutil, json
 
 WT = '/tmp/wt_c05'
 BASE = '/tmp/verif_c05/base'
-ENV = dict(os.environ, GOFLAGS='-mod=mod', GOPROXY='off', GOSUMDB='off', GOTOOLCHAIN='local')
+ENV = dict(os.environ, GOFLAGS='-mod=mod', GOPROXY='off', GOSUMDB='off', GOTOOLCHAIN='local', GOCACHE='/tmp/gocache_c05')
 ENV.pop('GOWORK', None)
 R = 'formats/obj/reader.go'
 W = 'formats/obj/writer.go'
@@ -26,7 +27,7 @@ T = 'formats/txt/writer.go'
 
 
 def restore():
-    shutil.copy('/repo/formats/txt/writer.go', os.path.join(WT, T))
+    subprocess.run(['git', 'checkout', '-q', '--', 'formats/txt/writer.go'], cwd=WT)
     shutil.copy(os.path.join(BASE, 'reader.go'), os.path.join(WT, R))
     shutil.copy(os.path.join(BASE, 'writer.go'), os.path.join(WT, W))
 
@@ -420,6 +421,96 @@ M('M32', ['OWN-2'], (R, """	return ObjMesh{
 		Mesh: mesh,
 	}
 }"""))
+
+# ---- seeded defects found by independent mutation agents (round 2)
+def patch(path):
+    return ('__custom__', lambda: subprocess.run(['git', 'apply', path], cwd=WT, check=True))
+
+
+M('S1', ['MAT-1'], patch('/verif/seeded/C05-1-reader-merges-a-repeated-usemtl-into-the/patch.diff'))
+M('S2', ['FORM-1'], patch('/verif/seeded/C05-2-writer-keeps-the-previous-mesh-s-face-re/patch.diff'))
+M('S3', ['MAT-2'], patch('/verif/seeded/C05-3-writer-omits-usemtl-when-the-material-eq/patch.diff'))
+# ---- "conditional skip" family (round 2)
+M('K01', ['FACE-1'], (R, """			trisSenseLastMat++
+
+""", """			if components[1] == components[2] || components[2] == components[3] {
+				continue // degenerate face
+			}
+			trisSenseLastMat++
+
+"""))
+M('K02', ['STREAM-R'], (R, """			readVerts = append(readVerts, v)
+""", """			if n := len(readVerts); n > 0 && readVerts[n-1] == v {
+				continue // repeated vertex
+			}
+			readVerts = append(readVerts, v)
+"""))
+M('K03', ['TOK-W'], (W, """	for triIndex := start; triIndex < end; triIndex += 3 {
+		out.StartEntry()
+		out.String("f ")
+		out.Int(tris.At(triIndex) + 1 + base.v)""", """	for triIndex := start; triIndex < end; triIndex += 3 {
+		if tris.At(triIndex) == tris.At(triIndex+1) {
+			continue
+		}
+		out.StartEntry()
+		out.String("f ")
+		out.Int(tris.At(triIndex) + 1 + base.v)"""))
+M('K04', ['AXIS-3'], (W, """				n := normalData.At(i)
+""", """				n := normalData.At(i)
+				if n.X() == 0 && n.Y() == 0 && n.Z() == 0 {
+					continue
+				}
+"""))
+M('K05', ['STREAM-W'], (W, """		if m.HasFloat3Attribute(modeling.NormalAttribute) {
+			normalData :=""", """		if m.HasFloat3Attribute(modeling.NormalAttribute) && len(meshes) < 64 {
+			normalData :="""))
+M('K06', ['GROUP-1'], (W, """	var base indexBase
+	for _, objMesh := range meshes {
+		if len(meshes) > 1 || objMesh.Name != "" {
+			fmt.Fprintf(out, "g %s\\n", objMesh.Name)
+		}
+""", """	var base indexBase
+	lastName := ""
+	for i, objMesh := range meshes {
+		if (len(meshes) > 1 || objMesh.Name != "") && (i == 0 || objMesh.Name != lastName) {
+			fmt.Fprintf(out, "g %s\\n", objMesh.Name)
+			lastName = objMesh.Name
+		}
+"""))
+M('K07', ['MAT-2'], (W, """			for _, mat := range mats {
+				writeUsingMaterial(mat.Material, writer)""", """			for _, mat := range mats {
+				if mat.Material == nil {
+					offset += mat.PrimitiveCount * 3
+					continue
+				}
+				writeUsingMaterial(mat.Material, writer)"""))
+M('K08', ['MAT-2'], (W, """		mats := m.Materials()
+		indices := m.Indices()
+		if len(mats) == 0 {""", """		mats := m.Materials()
+		indices := m.Indices()
+		if objMesh.Name == "hidden" {
+			continue
+		}
+		if len(mats) == 0 {"""))
+M('K09', ['GROUP-R'], (R, """			if !workingGeom.empty() {
+				closeMaterialRange()""", """			if !workingGeom.empty() && workingGeom.name != groupName {
+				closeMaterialRange()"""))
+M('K10', ['FORM-1'], (W, """	var base indexBase
+	for _, objMesh := range meshes {""", """	var base indexBase
+	firstHasNormals := len(meshes) > 0 && meshes[0].Mesh.HasVertexAttribute(modeling.NormalAttribute)
+	for _, objMesh := range meshes {"""), (W, """		} else if m.HasVertexAttribute(modeling.NormalAttribute) {
+			faceWriter = writeFaceVertsAndNormals""", """		} else if firstHasNormals {
+			faceWriter = writeFaceVertsAndNormals"""))
+M('K11', ['MAT-1'], (R, """		if trisSenseLastMat > 0 && len(workingGeom.meshMats) > 0 {
+			workingGeom.meshMats[len(workingGeom.meshMats)-1].PrimitiveCount = trisSenseLastMat
+		}
+		trisSenseLastMat = 0
+	}
+""", """		if trisSenseLastMat > 0 && len(workingGeom.meshMats) > 0 {
+			workingGeom.meshMats[len(workingGeom.meshMats)-1].PrimitiveCount += trisSenseLastMat
+		}
+	}
+"""))
 
 # ---------------------------------------------------------------- refactors (behaviour preserving)
 
@@ -847,6 +938,36 @@ combo('X09', ['FORM-1'], 'R08', (W, """		case hasN:
 			faceWriter = writeFaceVertsAndNormals
 		case hasN:
 			faceWriter = writeFaceVertsAndUvs"""))
+
+
+ACC_U = ("""					workingGeom.meshMats[len(workingGeom.meshMats)-1].PrimitiveCount = trisSenseLastMat
+				}
+			}
+""", """					workingGeom.meshMats[len(workingGeom.meshMats)-1].PrimitiveCount += trisSenseLastMat
+				}
+			}
+""")
+ACC_C = ("""			workingGeom.meshMats[len(workingGeom.meshMats)-1].PrimitiveCount = trisSenseLastMat
+		}
+		trisSenseLastMat = 0""", """			workingGeom.meshMats[len(workingGeom.meshMats)-1].PrimitiveCount += trisSenseLastMat
+		}
+		trisSenseLastMat = 0""")
+RF('R20', (R,) + ACC_U, (R,) + ACC_C)
+RF('R21', (W, """	var faceWriter func(tris *iter.ArrayIterator[int], out *txt.Writer, start, end int, base indexBase)
+""", """	faceWriter := writeFaceVerts
+"""))
+RF('R22', patch('/verif/seeded/C05-1-reader-merges-a-repeated-usemtl-into-the/patch.diff'), (R,) + ACC_U, (R,) + ACC_C)
+RF('R23', (W, """		if len(meshes) > 1 || objMesh.Name != "" {
+			fmt.Fprintf(out, "g %s\\n", objMesh.Name)
+		}
+""", """		named := objMesh.Name != ""
+		if named || len(meshes) >= 2 {
+			fmt.Fprintf(out, "g %s\\n", objMesh.Name)
+		}
+"""))
+RF('R24', (R, """			if !workingGeom.empty() {
+				closeMaterialRange()""", """			if len(workingGeom.tris) > 0 {
+				closeMaterialRange()"""))
 
 
 def apply_and_run(name, table):
